@@ -234,6 +234,13 @@ p_ini_file_parse (PIniFile	*file,
 		if (P_UNLIKELY (strlen (dst_line) > P_INI_FILE_MAX_LINE))
 			dst_line[P_INI_FILE_MAX_LINE] = '\0';
 
+		/* Whole-line comments contribute nothing, even if they contain '=' */
+		if (dst_line[0] == '#' || dst_line[0] == ';') {
+			p_free (dst_line);
+			memset (src_line, 0, sizeof (src_line));
+			continue;
+		}
+
 		if (dst_line[0] == '[' && dst_line[strlen (dst_line) - 1] == ']' &&
 		    sscanf (dst_line, "[%[^]]", key) == 1) {
 			/* New section found */
